@@ -1,5 +1,5 @@
 #!/bin/bash
-# tools/seedall.sh [lanes=2] : re-confirms every seeded change under /verif/seeded and re-runs the
+# tools/seedall.sh [lanes=1] [name-filter] : re-confirms every seeded change under /verif/seeded and re-runs the
 # relevant quick checks against it with the harness as it is now; rewrites each meta.json and the
 # DESIGN table. C09 (timing) is only run for the seeds that target C09, C05 (child processes under the race detector) for the seeds about shared state.
 cd /verif
@@ -9,12 +9,12 @@ SQLI="C01 C03 C06 C08 C10 C12 C14 C16 C18"; XSS="C02 C04 C07 C11 C13 C15 C17 C19
 one() {
   n="$1"; d="seeded/$n"
   ids="C20"
-  case "$n" in C05*|C14-r2-2|C15-2|C15-r2-2|C20-2|C20-r2-1|C01-2) ids="$ids C05";; esac
+  case "$n" in C05*|C14-r2-2|C15-2|C15-r2-2|C20-2|C20-r2-1|C01-2|C02-r3-1|C03-r3-2|C08-r3-2|C19-r3-*) ids="$ids C05";; esac
   grep -q '^+++ b/sqli' "$d/patch.diff" && ids="$SQLI $ids"
   grep -q '^+++ b/\(xss\|html5\)' "$d/patch.diff" && ids="$XSS $ids"
   case "$n" in C09*) ids="$ids C09";; esac
   bash .bin/seedcheck.run.sh "$d" "$n" $ids 2>&1 | grep -a "RESULT\|INVALID" | cut -c1-200
 }
 export -f one; export SQLI XSS
-ls seeded | xargs -P "$LANES" -I{} bash -c 'one {}'
+ls seeded | grep -- "${2:-.}" | xargs -P "$LANES" -I{} bash -c 'one {}'
 python3 tools/mkseedtable.py
